@@ -117,7 +117,31 @@ def contracts(rep, regs, model):
     # oui: info[-2][1]['o'] - only entries that can be the deepest match need o=
     tree = load_py('stdnum/mac.py')
     fn = func(tree, '_lookup', 'stdnum/mac.py')
+    # the query handed to the registry: the whole address, or only a prefix of it (then deeper blocks are never consulted)
+    qcalls = [c for c in ast.walk(fn) if isinstance(c, ast.Call) and isinstance(c.func, ast.Attribute) and c.func.attr == 'info'
+              and src(c.func.value).replace('"', "'") == "numdb.get('oui')" and len(c.args) == 1]
+    if not qcalls:
+        raise AnalysisError("stdnum/mac.py: _lookup() no longer queries numdb.get('oui').info(...)")
+    for c in qcalls:
+        a = c.args[0]
+        if isinstance(a, ast.Subscript) and isinstance(a.slice, ast.Slice) and a.slice.lower is None and isinstance(a.slice.upper, ast.Constant) \
+                and isinstance(a.slice.upper.value, int) and a.slice.upper.value > 0:
+            k = a.slice.upper.value
+
+            def chainlen(e):
+                n_ = 0
+                while e is not None:
+                    n_ += e.length
+                    e = e.parent
+                return n_
+            deep = [e for e in R['oui'].entries if chainlen(e) > k]
+            rep.check(not deep, 'REG.consumer-reach', 'stdnum/mac.py', '_lookup', src(c), c.lineno,
+                      'the registry is queried with the first %d characters only: %d nested blocks of oui.dat (e.g. line %s) are never consulted, '
+                      'addresses in them get no or the wrong manufacturer' % (k, len(deep), deep[0].line if deep else ''),
+                      what='query %s reaches every nesting level' % src(a))
     if not has_expr(fn, "info[-2][1]['o']"):
+        if any(f.rule == 'REG.consumer-reach' for f in rep.findings):
+            return
         raise AnalysisError("stdnum/mac.py: _lookup() no longer reads info[-2][1]['o']")
     catches_key = any(isinstance(h, ast.ExceptHandler) and h.type is not None and any(
         src(t) in ('KeyError', 'LookupError', 'Exception') for t in (h.type.elts if isinstance(h.type, ast.Tuple) else [h.type]))
